@@ -523,6 +523,36 @@ def _real_classes(serial):
     crtp.init_drivers(enable_serial_driver=serial)
 
 
+def h_init_drivers(sym):
+    """Histories of init_drivers calls (an application, a helper library and a GUI may each call it): the optional serial driver
+    is registered once a call has asked for it and never without being asked for; the standard drivers are always registered."""
+    from cflib.crtp.radiodriver import RadioDriver
+    from cflib.crtp.usbdriver import UsbDriver
+    from cflib.crtp.udpdriver import UdpDriver
+    from cflib.crtp.tcpdriver import TcpDriver
+    from cflib.crtp.prrtdriver import PrrtDriver
+    from cflib.crtp.serialdriver import SerialDriver
+    n = 1 + sym.choice('calls', 3)
+    flags = [True if sym.bool(f'serial{i}') else False for i in range(n)]
+    sym.apply_known()
+    saved = list(crtp.CLASSES)
+    os.environ.pop('USE_CFLINK', None)
+    try:
+        del crtp.CLASSES[:]
+        for i in range(n):
+            crtp.init_drivers(enable_serial_driver=flags[i])
+            have = set(crtp.CLASSES)
+            assert {RadioDriver, UsbDriver, UdpDriver, TcpDriver, PrrtDriver} <= have, 'a standard driver is not registered'
+            if flags[i]:
+                assert SerialDriver in have, 'init_drivers(enable_serial_driver=True) did not register the serial driver'
+                sym.goal('serial-enabled-by-a-later-call' if i > 0 and not any(flags[:i]) else 'serial-enabled')
+            if not any(flags[:i + 1]):
+                assert SerialDriver not in have, 'serial driver registered without being asked for'
+        assert have <= {RadioDriver, UsbDriver, UdpDriver, TcpDriver, PrrtDriver, SerialDriver}
+    finally:
+        crtp.CLASSES[:] = saved
+
+
 def h_unknown(sym):
     """A URI that starts with no known `<scheme>://` (its first characters are arbitrary printable ASCII), or a usb URI
     whose device part is not a number: every real driver passes, open_link reports exactly one connection_failed."""
@@ -766,6 +796,8 @@ HARNESSES = [
             note='the digit class stays symbolic; each malformed character is a separate path (int() realises non-digits)')
     for p in ('channel', 'address', 'dongle')
 ] + [
+    Harness('init_drivers', h_init_drivers, goals=('serial-enabled', 'serial-enabled-by-a-later-call'), timeout=(120, 300), symbolic=False,
+            note='number of calls and the serial flag of each are solver-chosen alternatives'),
     Harness('env', h_env, quick=dict(alen=(1, 10)), thorough=dict(alen=tuple(range(1, 11))), goals=('env',), timeout=_TO, per_path=120.0),
     Harness('models', h_models, timeout=(280, 600), per_path=280.0, symbolic=False,
             note='differential validation of the local format / unhexlify / int(.,16) models against CPython on fixed vectors'),
